@@ -113,8 +113,6 @@ func (o *Oracle) cuts(lo, hi int64, extra []int64) []int64 {
 // CheckRead judges a successful read of [off, off+reqLen) that returned data[:n] for an observer
 // with guarantee level tau.  'who' goes into the signature (e.g. "writer", "reader", "replica").
 func (o *Oracle) CheckRead(who string, off int64, reqLen int, data []byte, tau int) []Bad {
-	var bad []Bad
-	hi := off + int64(reqLen)
 	var extra []int64
 	// run boundaries of the returned data
 	for i := 1; i < len(data); i++ {
@@ -122,33 +120,65 @@ func (o *Oracle) CheckRead(who string, off int64, reqLen int, data []byte, tau i
 			extra = append(extra, off+int64(i))
 		}
 	}
-	extra = append(extra, off+int64(len(data)))
+	return o.check(who, off, int64(reqLen), int64(len(data)), func(p int64) byte { return data[p-off] }, extra, tau)
+}
+
+// CheckRuns is CheckRead for content given run-length encoded ((len, byte) pairs, as in a tractserver
+// dump): the judgement is the same as for a read of [off, off+reqLen) that returned the decoded bytes.
+func (o *Oracle) CheckRuns(who string, off int64, reqLen int64, runs []int64, tau int) []Bad {
+	var starts []int64 // start position of every run, then the end of the data
+	p := off
+	for i := 0; i+1 < len(runs); i += 2 {
+		starts = append(starts, p)
+		p += runs[i]
+	}
+	n := p - off
+	if n > reqLen {
+		n = reqLen
+	}
+	at := func(q int64) byte {
+		i := sort.Search(len(starts), func(i int) bool { return starts[i] > q }) - 1
+		return byte(runs[2*i+1])
+	}
+	var extra []int64
+	if len(starts) > 1 {
+		extra = starts[1:]
+	}
+	return o.check(who, off, reqLen, n, at, extra, tau)
+}
+
+// check judges n returned bytes (read through 'at', absolute positions) of a request [off, off+reqLen);
+// 'bounds' are the positions where the returned content changes value.
+func (o *Oracle) check(who string, off, reqLen, n int64, at func(int64) byte, bounds []int64, tau int) []Bad {
+	var bad []Bad
+	hi := off + reqLen
+	extra := append(append([]int64{}, bounds...), off+n)
 	cuts := o.cuts(off, hi, extra)
 	for _, s := range cuts {
 		val, det, never := o.Expect(s, tau)
-		returned := s < off+int64(len(data))
+		returned := s < off+n
 		if !det {
 			continue
 		}
 		if never {
-			if returned && data[s-off] != 0 {
+			if returned && at(s) != 0 {
 				bad = append(bad, Bad{Sig: who + "-read-unwritten-byte-nonzero", What: "a byte no write ever covered reads as non-zero",
-					Detail: map[string]interface{}{"pos": s, "got": data[s-off]}})
+					Detail: map[string]interface{}{"pos": s, "got": at(s)}})
 			}
 			continue
 		}
 		if !returned {
 			bad = append(bad, Bad{Sig: who + "-read-acked-write-missing-short", What: "a read ended before a byte of an acknowledged write (no newer attempt on it)",
-				Detail: map[string]interface{}{"pos": s, "want": val, "returned": len(data), "off": off}})
+				Detail: map[string]interface{}{"pos": s, "want": val, "returned": int(n), "off": off}})
 			continue
 		}
-		if data[s-off] != val {
+		if got := at(s); got != val {
 			sig := who + "-read-acked-write-not-visible"
-			if data[s-off] != 0 && int(data[s-off]) > int(val) {
+			if got != 0 && int(got) > int(val) {
 				sig = who + "-read-sees-other-write"
 			}
 			bad = append(bad, Bad{Sig: sig, What: "a read returned a byte that is not the latest acknowledged write covering it (no newer attempt on it)",
-				Detail: map[string]interface{}{"pos": s, "want": val, "got": data[s-off], "off": off, "tau": tau}})
+				Detail: map[string]interface{}{"pos": s, "want": val, "got": got, "off": off, "tau": tau}})
 		}
 	}
 	return bad
